@@ -318,6 +318,27 @@ def fixed_cases(g):
     ents.append({"file": ["proj2", "model", "main.nml"], "style": "rel_dot", "cwd": ["proj2"]})
     out.append({"files": proj, "dirs": [[], ["proj1"], ["proj2"], ["proj1", "model"], ["proj2", "model"], ["proj1", "model", "parts"], ["proj2", "model", "parts"]],
                 "cwd": ["proj1"], "cwds": [], "entry": ents[0], "entries": ents, "default_args": True, "al": [], "shape": "chain"})
+    # scale: more than 100 files in one include graph (3 hubs x 42 leaves, two leaves reached from two hubs)
+    big = [{"path": ["big.nml"], "kind": "xml", "comps": [C("cells", "top", 1)], "incs": [H("h%d" % i, "hub.nml") for i in range(3)]}]
+    for i in range(3):
+        big.append({"path": ["h%d" % i, "hub.nml"], "kind": "xml", "comps": [C("cells", "hub%d" % i, 2 + i)],
+                    "incs": [H("leaf%d.nml" % j) for j in range(42)] + [H("..", "h0", "leaf%d.nml" % i)]})
+        for j in range(42):
+            big.append({"path": ["h%d" % i, "leaf%d.nml" % j], "kind": "xml", "comps": [C("ion_channel", "c%d_%d" % (i, j), 10 + 50 * i + j)], "incs": []})
+    # ... and only then a file that has includes of its own
+    big[0]["incs"].append(H("tail", "t1.nml"))
+    big.append({"path": ["tail", "t1.nml"], "kind": "xml", "comps": [C("cells", "t1", 5)], "incs": [H("t2.xml")]})
+    big.append({"path": ["tail", "t2.xml"], "kind": "xml", "comps": [C("cells", "t2", 6), C("networks", "tnet", 7)], "incs": []})
+    out.append({"files": big, "dirs": [[], ["h0"], ["h1"], ["h2"], ["tail"]], "cwd": [], "cwds": [], "entry": {"file": ["big.nml"], "style": "abs"},
+                "al": [], "shape": "diamond"})
+    # form: file and directory names that look like percent escapes or contain a blank are names, not encodings
+    out.append({"files": [{"path": ["top.nml"], "kind": "xml", "comps": [C("cells", "top", 1)],
+                           "incs": [H("My%20Cell.cell.nml"), H("d%41", "syn_100%ACh.nml"), H("My Cell.cell.nml")]},
+                          {"path": ["My%20Cell.cell.nml"], "kind": "xml", "comps": [C("cells", "pct", 2)], "incs": []},
+                          {"path": ["My Cell.cell.nml"], "kind": "xml", "comps": [C("cells", "blank", 3)], "incs": []},
+                          {"path": ["d%41", "syn_100%ACh.nml"], "kind": "xml", "comps": [C("ion_channel", "ach", 4)], "incs": []},
+                          {"path": ["dA", "syn_100%ACh.nml"], "kind": "xml", "comps": [C("ion_channel", "decoy", 5)], "incs": []}],
+                "dirs": [[], ["d%41"], ["dA"]], "cwd": [], "cwds": [["dA"]], "entry": {"file": ["top.nml"], "style": "rel"}, "al": [], "shape": "tree"})
     for c in out:
         c["names"] = names_of(c)
         c["opts"] = [False, True]
